@@ -8,7 +8,7 @@ Term grammar (tuples):
   ('fnptr', path)
   ('place', base_term, (proj, ...))  proj: '*', '.field', '[]', 'as:Variant', '[k]', '[-k]'
   ('ref', term) / ('refmut', term) / ('rawptr', term)
-  ('bin', op, a, b) / ('un', op, a) / ('cast', kind, a, ty)
+  ('bin', op, a, b) / ('un', op, a) / ('cast', kind, a, ty, from_ty)
   ('call', callee_path, (args...), bb)
   ('agg', kind, name, (ops...))
   ('discr', term)
@@ -140,7 +140,7 @@ class Sym:
         if k == "un":
             return ('un', rv["op"], self.operand(rv["a"], depth))
         if k == "cast":
-            return ('cast', rv["ck"], self.operand(rv["a"], depth), rv["ty"])
+            return ('cast', rv["ck"], self.operand(rv["a"], depth), rv["ty"], rv.get("from"))
         if k == "discr":
             return ('discr', self.place(rv["p"], depth))
         if k == "agg":
